@@ -241,16 +241,16 @@ Info(name, w) == LET p == ParseName(name) IN
                   constr |-> (IF p.sw >= 0 THEN {"SW"} ELSE {}) \cup (IF p.hw >= 0 THEN {"HW"} ELSE {})]
 Eval(w) ==
   LET cs == IF Selectable(w) THEN Candidates(w) ELSE {}
-      inf == [c \in cs |-> Info(c, w)]
-      must == {c \in cs : inf[c].m = "yes"}
-      maybe == {c \in cs : inf[c].m # "no"}
-      domId(d, c) == inf[d].idlen > inf[c].idlen                                                        \* R4
-      domVer(d, c) == inf[d].idlen = inf[c].idlen /\ inf[c].constr \subseteq inf[d].constr /\ inf[c].constr # inf[d].constr   \* R5
-  IN [cands |-> cs, must |-> must, maybe |-> maybe,
-      adm |-> {c \in maybe : ~\E d \in must : domId(d, c) \/ domVer(d, c)},
-      byId |-> {c \in maybe : \E d \in must : domId(d, c)},                  \* beaten by a longer ident
-      byVer |-> {c \in maybe : \E d \in must : domVer(d, c)},                \* beaten by a more specific version
-      none |-> must = {} \/ IsMaster(w.addr)]                                 \* O5
+      inf == {<<c, Info(c, w)>> : c \in cs}                 \* a set of pairs, not a function: TLC evaluates it once
+      must == {p \in inf : p[2].m = "yes"}
+      maybe == {p \in inf : p[2].m # "no"}
+      domId(d, c) == d.idlen > c.idlen                                                                   \* R4
+      domVer(d, c) == d.idlen = c.idlen /\ c.constr \subseteq d.constr /\ c.constr # d.constr            \* R5
+  IN [cands |-> cs, must |-> {p[1] : p \in must}, maybe |-> {p[1] : p \in maybe},
+      adm |-> {p[1] : p \in {q \in maybe : ~\E d \in must : domId(d[2], q[2]) \/ domVer(d[2], q[2])}},
+      byId |-> {p[1] : p \in {q \in maybe : \E d \in must : domId(d[2], q[2])}},        \* beaten by a longer ident
+      byVer |-> {p[1] : p \in {q \in maybe : \E d \in must : domVer(d[2], q[2])}},      \* beaten by a more specific version
+      none |-> must = {} \/ IsMaster(w.addr)]                                            \* O5
 Must(w) == Eval(w).must
 Maybe(w) == Eval(w).maybe
 Admissible(w) == Eval(w).adm
